@@ -77,12 +77,13 @@ fn extract_bracket_expr(pattern: &str) -> Option<(String, &str)> {
                 //
                 //     6. ...  A character class expression is expressed as a character class name
                 //        enclosed within bracket- <colon> ( "[:" and ":]" ) delimiters.
-                next = chars.next();
-                if let Some(delim) = next {
-                    expr.push(delim);
-
+                // Only "[.", "[=" and "[:" open a sub-expression; any other character
+                // after '[' (in particular ']') is examined by the next iteration.
+                let mut lookahead = chars.clone();
+                if let Some(delim) = lookahead.next() {
                     if matches!(delim, '.' | '=' | ':') {
-                        let rest = chars.as_str();
+                        expr.push(delim);
+                        let rest = lookahead.as_str();
                         let end = rest.find([delim, ']'])? + 2;
                         // An unterminated class name makes the whole bracket invalid.
                         expr.push_str(rest.get(..end)?);
